@@ -45,7 +45,21 @@ def _keys(ctx):
             r = Key.transpose_key(k, iv)      # judged by the contract (returns_key / tonic_shift / scale_shift)
             n += 1
             hashes.append(gen.chash(["tk", k.value, iv]))
-    return {"evaluations": n, "hashes": hashes, "fails": fails, "shapes": {"transpose_key": n},
+    # "any integer": intervals that are integers without being the builtin int (named intervals of an IntEnum, bools, numpy integers)
+    import enum
+    import numpy as np
+    Named = enum.IntEnum("Named", {f"I{j + 30}": j for j in range(-30, 31) if j != 0})
+    for k in keys:
+        others = list(Named) + [True, False] + [np.int64(j) for j in range(-25, 26)] + [np.int32(j) for j in (-13, -7, -1, 1, 5, 7, 11, 12, 14)] + \
+                 [np.int8(j) for j in (-11, 3, 6)] + [np.uint8(j) for j in (1, 6, 200)]
+        for iv in others:
+            r = Key.transpose_key(k, iv)      # the contract accepts every numbers.Integral
+            n += 1
+            LOG.n("c20.interval_of_another_integer_type")
+            hashes.append(gen.chash(["tk", k.value, type(iv).__name__, int(iv)]))
+            if isinstance(r, Key) and TONIC[r.value] != (TONIC[k.value] + int(iv)) % 12:
+                fails.append(dict(fail("tonic_shift_for_integer_of_another_type", (k.value, repr(iv), r.value)), case={"phase": "keys", "key": k.value}))
+    return {"evaluations": n, "hashes": hashes, "fails": fails[:8], "shapes": {"transpose_key": n},
             "samples": [{"key": "Gb", "interval": -12, "result": getattr(Key.transpose_key(Key("Gb"), -12), "value", None)}]}
 
 
